@@ -307,3 +307,81 @@ def ob_timeout_then_retry_vs_idle(w: int, d: int, it: int) -> bool:
     if obs["errors"] or obs["loop_exceptions"]:
         return False
     return obs["status"] == "completed" and obs["result"] == "retried" and obs["aborts"] == 0
+
+
+# ----------------------------------------------------------------------------------------------- two steps waiting for the same event type
+class EA(Event):
+    pass
+
+
+class EB(Event):
+    pass
+
+
+class Done14(Event):
+    who: str
+    r: str
+
+
+def _two_steps(wa: int, wa2: int, wb: int, swap: bool):
+    """steps ``a`` and ``b`` both wait for a Resp with the DEFAULT waiter id (derived from the event type: the same id in both steps) and
+    nobody answers; one of them (a, or b when ``swap``) parks a second time after its first TimeoutError, so its first waiter record is still
+    around when the other step's timer falls due"""
+
+    async def wait(ctx, first: int, second: int) -> str:
+        got = []
+        for i, w in enumerate((first, second)):
+            if w <= 0:
+                continue
+            try:
+                if i == 0:
+                    await ctx.wait_for_event(Resp, timeout=w)
+                else:
+                    await ctx.wait_for_event(Resp, waiter_id="again", timeout=w)
+                got.append("answered")
+            except asyncio.TimeoutError:
+                got.append("timeout")
+        return "+".join(got)
+
+    class TwoSteps(Workflow):
+        @step
+        async def s0(self, ctx: Context, ev: StartEvent) -> EA | EB | None:
+            ctx.send_event(EA())
+            ctx.send_event(EB())
+            return None
+
+        @step
+        async def a(self, ctx: Context, ev: EA) -> Done14:
+            return Done14(who="a", r=await wait(ctx, wb if swap else wa, 0 if swap else wa2))
+
+        @step
+        async def b(self, ctx: Context, ev: EB) -> Done14:
+            return Done14(who="b", r=await wait(ctx, wa if swap else wb, wa2 if swap else 0))
+
+        @step
+        async def fin(self, ctx: Context, ev: Done14) -> StopEvent | None:
+            got = ctx.collect_events(ev, [Done14, Done14])
+            if got is None:
+                return None
+            return StopEvent(result=",".join(sorted(f"{e.who}:{e.r}" for e in got)))
+
+    return TwoSteps(timeout=None)
+
+
+@obligation(quick=300, thorough=900, partitions_quick=[f"it == {i} and swap == {s}" for i in (2, 3, 4) for s in (False, True)],
+            partitions_thorough=[f"it == {i} and swap == {s} and wa == {w}" for i in (2, 3, 4, 5) for s in (False, True) for w in range(1, i)],
+            what="two STEPS of one run wait for the same event type with the default waiter id (equal in both steps), nobody answers; one of "
+                 "them parks again after its first timeout: each step gets every one of its TimeoutErrors (timers are per (step, waiter)), the "
+                 "handler completes; every order of the three timers and idle_timeout (all waits shorter than idle_timeout: outside KF-C14-1)",
+            bounds={"wa, wa2, wb": "1..it-1", "idle_timeout": "2..4 (thorough 5)", "which step parks twice": "a / b"})
+def ob_two_steps_same_waiter_id(it: int, wa: int, wa2: int, wb: int, swap: bool) -> bool:
+    """
+    pre: 2 <= it <= IT2MAX and 1 <= wa < it and 1 <= wa2 < it and 1 <= wb < it
+    post: _
+    """
+    it, wa, wa2, wb, swap = conc(it, 2, 5), conc(wa, 1, 4), conc(wa2, 1, 4), conc(wb, 1, 4), concb(swap)
+    obs = run_first(lambda: _two_steps(wa, wa2, wb, swap), idle_timeout=it, horizon=wa + wa2 + wb + it + 6)
+    if obs["errors"] or obs["loop_exceptions"]:
+        return False
+    want = "a:timeout,b:timeout+timeout" if swap else "a:timeout+timeout,b:timeout"
+    return obs["status"] == "completed" and obs["result"] == want and obs["aborts"] == 0
